@@ -94,7 +94,7 @@ const (
 	contentDispHdr      = "content-disposition"
 	cacheCtrlHdr        = "cache-control"
 	expiresHdr          = "expires"
-	emptyMD5            = "d41d8cd98f00b204e9800998ecf8427e"
+	emptyMD5            = "\"d41d8cd98f00b204e9800998ecf8427e\""
 	aclkey              = "acl"
 	ownershipkey        = "ownership"
 	etagkey             = "etag"
@@ -2815,12 +2815,35 @@ func (p *Posix) PutObject(ctx context.Context, po s3response.PutObjectInput) (s3
 			return s3response.PutObjectOutput{}, err
 		}
 
+		// a directory object that is put again is replaced: drop the
+		// attributes the previous one carried
+		attrs, err := p.meta.ListAttributes(*po.Bucket, *po.Key)
+		if err == nil {
+			for _, attr := range attrs {
+				err := p.meta.DeleteAttribute(*po.Bucket, *po.Key, attr)
+				if err != nil && !errors.Is(err, meta.ErrNoSuchKey) {
+					return s3response.PutObjectOutput{}, fmt.Errorf("delete attr %q: %w", attr, err)
+				}
+			}
+		}
+
 		for k, v := range po.Metadata {
 			err := p.meta.StoreAttribute(nil, *po.Bucket, *po.Key,
 				fmt.Sprintf("%v.%v", metaHdr, k), []byte(v))
 			if err != nil {
 				return s3response.PutObjectOutput{}, fmt.Errorf("set user attr %q: %w", k, err)
 			}
+		}
+
+		err = p.storeObjectMetadata(nil, *po.Bucket, *po.Key, objectMetadata{
+			ContentEncoding:    po.ContentEncoding,
+			ContentLanguage:    po.ContentLanguage,
+			ContentDisposition: po.ContentDisposition,
+			CacheControl:       po.CacheControl,
+			Expires:            po.Expires,
+		})
+		if err != nil {
+			return s3response.PutObjectOutput{}, err
 		}
 
 		// set etag attribute to signify this dir was specifically put
@@ -2830,11 +2853,23 @@ func (p *Posix) PutObject(ctx context.Context, po s3response.PutObjectInput) (s3
 			return s3response.PutObjectOutput{}, fmt.Errorf("set etag attr: %w", err)
 		}
 
-		// set "application/x-directory" content-type
+		// set "application/x-directory" content-type unless the
+		// request names one
+		dirContentType := backend.DirContentType
+		if getString(po.ContentType) != "" {
+			dirContentType = *po.ContentType
+		}
 		err = p.meta.StoreAttribute(nil, *po.Bucket, *po.Key, contentTypeHdr,
-			[]byte(backend.DirContentType))
+			[]byte(dirContentType))
 		if err != nil {
 			return s3response.PutObjectOutput{}, fmt.Errorf("set content-type attr: %w", err)
+		}
+
+		if tags != nil {
+			err := p.PutObjectTagging(ctx, *po.Bucket, *po.Key, tags)
+			if err != nil {
+				return s3response.PutObjectOutput{}, err
+			}
 		}
 
 		// for directory object no version is created
@@ -3868,6 +3903,10 @@ func (p *Posix) HeadObject(ctx context.Context, input *s3.HeadObjectInput) (*s3.
 	}
 
 	size := fi.Size()
+	if fi.IsDir() {
+		// a directory object has no data
+		size = 0
+	}
 
 	var objectLockLegalHoldStatus types.ObjectLockLegalHoldStatus
 	status, err := p.GetObjectLegalHold(ctx, bucket, object, versionId)
